@@ -46,7 +46,12 @@ Print Assumptions C33_model_pred.
    which is fed only after that check; in cmd/thanos compactMainFn downsampling,
    retention and partial-upload cleanup each come after a `sy.SyncMetas` whose
    error returns on the same path; Syncer.SyncMetas returns the fetcher's error
-   before it stores the new view. *)
+   before it stores the new view; and the error-return lines between a failing
+   read and SyncMetas are in place (error_lines_ok): ReadMarker and loadMeta return
+   a failed Get, fetchMetadata returns lister/worker errors and sends every
+   loadMeta error other than not-found/corrupted to metaErrs, both marker filters
+   keep any other ReadMarker error in lastErr and return it, fetch returns the
+   fetchMetadata error, the first filter error and "incomplete view". *)
 Theorem C33_mutations_dominated_by_sync : order_facts_ok = true.
 Proof. exact order_facts. Qed.
 Print Assumptions C33_mutations_dominated_by_sync.
@@ -60,6 +65,52 @@ Theorem C33_scanner_sound : forall syncs muts pre m post s1,
 Proof. exact scan_mutation_synced. Qed.
 Print Assumptions C33_scanner_sound.
 
+(* ---- the structured model: bucket contents x set of failing reads --------------------
+
+   [sync conc f b] models Syncer.SyncMetas over MetaFetcher (Recursive or Concurrent
+   lister; loadMeta's classification: meta.json missing / not JSON => partial block,
+   unexpected version or any other read error => incomplete view), then
+   IgnoreDeletionMarkFilter, DeduplicateFilter (the C31 model) and
+   GatherNoCompactionMarkFilter with their marker reads and error propagation.
+   [f : rid -> bool] says which reads fail.  [performed] are the reads the sync can
+   issue under f.  For EVERY bucket, EVERY fault set and EVERY performed read that
+   fails — listing, an Exists probe, a meta.json, a deletion mark, a no-compact
+   mark — the iteration (cleaner deletions, garbage-collection marks, any group
+   compaction work) is empty. *)
+Theorem C33_no_writes_on_failed_sync_full : forall conc cleaner f b r (work : sview -> list cop),
+  performed conc f b r = true -> f r = true -> iteration2 conc cleaner f b work = [].
+Proof. exact iteration2_no_writes. Qed.
+Print Assumptions C33_no_writes_on_failed_sync_full.
+
+(* Every single fault position: failing exactly one of the reads a fault-free sync
+   performs (in whatever order they are issued) empties the iteration. *)
+Theorem C33_every_fault_position : forall conc cleaner b r (work : sview -> list cop),
+  In r (read_order conc b) -> iteration2 conc cleaner (only r) b work = [].
+Proof. exact single_fault_no_writes. Qed.
+Print Assumptions C33_every_fault_position.
+
+(* A view exists only if no performed read failed, and it lists only blocks whose
+   meta.json was read successfully and that the deletion-mark filter did not hide:
+   a partial view is never handed to the planner. *)
+Theorem C33_view_is_complete : forall conc f b v,
+  sync conc f b = Some v ->
+  (forall r, performed conc f b r = true -> f r = false) /\
+  (forall i, In i (v_metas v) ->
+     exists x, In x b /\ sid x = i /\ smeta x = MOk /\ f (RMeta i) = false /\ del_hidden x = false).
+Proof. exact view_is_complete. Qed.
+Print Assumptions C33_view_is_complete.
+
+(* The two levels agree: the structured sync fails exactly when its trace of
+   (kind, outcome) reads contains a failing read in the sense of the trace model. *)
+Theorem C33_sync_trace : forall conc f b, is_none (sync conc f b) = sync_error (trace conc f b).
+Proof. exact sync_trace. Qed.
+Print Assumptions C33_sync_trace.
+
+(* not vacuous: without faults and unexpected versions the sync yields a view *)
+Theorem C33_sync_succeeds : forall conc b, Forall well_versioned b -> exists v, sync conc no_faults b = Some v.
+Proof. exact sync_succeeds. Qed.
+Print Assumptions C33_sync_succeeds.
+
 (* Non-vacuity: a sync over two blocks where the second meta.json read fails;
    and the scanner rejects a function that garbage-collects before syncing. *)
 Example C33_nonvacuous :
@@ -71,4 +122,19 @@ Example C33_nonvacuous :
        [("call", "c.sy.SyncMetas"); ("if", "err != nil"); ("call", "log"); ("endif", ""); ("call", "c.sy.GarbageCollect")]%string = false
   /\ dominated Compact_syncs Compact_muts
        [("call", "c.sy.SyncMetas"); ("if", "err != nil"); ("return", "err"); ("endif", ""); ("call", "c.sy.GarbageCollect")]%string = true.
+Proof. vm_compute. repeat split; reflexivity. Qed.
+
+(* Non-vacuity of the structured model: five blocks (ok, old-marked, corrupt meta,
+   partial, no-compact): the view, the partial set, the cleaner's deletion, and a
+   failing no-compact-mark read of block 1. *)
+Example C33_structured_nonvacuous :
+  let b := [mk_bs 1 0 [1] MOk DNone NOk; mk_bs 2 1 [2] MOk (DOk true true) NNone;
+            mk_bs 3 2 [3] MCorrupt DNone NNone; mk_bs 4 3 [4] MMissing DNone NNone;
+            mk_bs 5 0 [1] MOk DNone NNone] in
+  option_map (fun v => (v_metas v, v_partial v, v_dups v, v_nocompact v)) (sync false no_faults b)
+    = Some ([1], [3; 4], [5], [1])%Z
+  /\ iteration2 false true no_faults b (fun _ => []) = [CDelete 2; CMarkDeletion 5]
+  /\ performed false (only (RNoc 1)) b (RNoc 1) = true
+  /\ iteration2 false true (only (RNoc 1)) b (fun _ => [COther 7]) = []
+  /\ performed false no_faults b (RNoc 2) = false.
 Proof. vm_compute. repeat split; reflexivity. Qed.
